@@ -5,7 +5,7 @@ import os
 
 from vx.unit import Unit
 
-PROPS = ['C01']
+PROPS = ['C01', 'C05']
 
 PRELUDE = '''#![allow(unused, dead_code)]
 pub mod brush_parser { pub mod word { pub use crate::word::*; } }
@@ -41,11 +41,52 @@ fn brace_char_sequence_steps() {
     // strict progress of the descending walk: the second element differs from the first (no zero step => no endless sequence)
     if start > end { if let (Some(x), Some(y)) = (&a, &b) { assert!(x != y); } }
 }
+
+// ---- C05: the elements are bash's: the step is the magnitude of the increment (0 counts as 1), the walk goes from start towards end and
+//      stops before passing it.  Checked for the first two elements.
+#[cfg(kani)]
+#[kani::proof]
+#[kani::unwind(8)]
+fn brace_char_sequence_values() {
+    let s: u8 = kani::any(); let e: u8 = kani::any(); let increment: i64 = kani::any();
+    kani::assume(s.is_ascii_alphabetic() && e.is_ascii_alphabetic());
+    let (start, end) = (s as char, e as char);
+    let mut it = expand_brace_expr_member(word::BraceExpressionMember::CharSequence { start, end, increment });
+    let a = it.next();
+    let b = it.next();
+    let step: u64 = if increment == 0 { 1 } else { increment.unsigned_abs() };
+    let expect: Option<u8> = if s <= e {
+        if (s as u64) + step <= e as u64 { Some((s as u64 + step) as u8) } else { None }
+    } else {
+        if step <= (s - e) as u64 { Some((s as u64 - step) as u8) } else { None }
+    };
+    assert!(a.as_deref().map(|x| x.as_bytes()[0]) == Some(s) && a.as_deref().map(|x| x.len()) == Some(1));
+    match (b, expect) {
+        (None, None) => {}
+        (Some(x), Some(y)) => { assert!(x.len() == 1 && x.as_bytes()[0] == y); }
+        _ => { assert!(false); }
+    }
+}
+#[cfg(kani)]
+#[kani::proof]
+#[kani::unwind(24)]
+fn brace_number_sequence_values() {
+    let start: i64 = kani::any(); let end: i64 = kani::any(); let increment: i64 = kani::any();
+    // a step of -2^63 has no magnitude in i64; bash leaves such a range unexpanded (its own overflow guard) — outside the comparison
+    kani::assume(increment != i64::MIN);
+    let mut it = expand_brace_expr_member(word::BraceExpressionMember::NumberSequence { start, end, increment });
+    let a = it.next();
+    let b = it.next();
+    let step: u64 = if increment == 0 { 1 } else { increment.unsigned_abs() };
+    let dist: u64 = if start <= end { end.wrapping_sub(start) as u64 } else { start.wrapping_sub(end) as u64 };
+    assert!(a.is_some());
+    assert!(b.is_some() == (step <= dist));   // a second element exists iff one step does not pass the end point
+}
 '''
 
 
 def build(repo, findings):
-    u = Unit('U21', 'brace-expansion ranges: step safety (Kani, full domain, loop-free)', repo, ['C01'], safety_props=['C01'])
+    u = Unit('U21', 'brace-expansion ranges: step safety and the first two elements (Kani, full domain, loop-free)', repo, ['C05'], safety_props=['C01'])
     u.kani_only = True
     src = u.source('brush-core/src/braceexpansion.rs')
     wd = u.source('brush-parser/src/word.rs')
@@ -70,6 +111,16 @@ def build(repo, findings):
         'name': 'brace-range-steps', 'build': gen, 'harnesses': ['brace_number_sequence_steps', 'brace_char_sequence_steps'], 'timeout': 600, 'workers': 2,
         'label': 'complete (loop-free, full domain) for the first two elements', 'bound': 'all (start, end, increment) in i64^3 / letters x letters x i64; two elements pulled; unwind bound only for to_string formatting loops',
         'props': ['C01'], 'quick': False,
+    })
+    u.bounded.append({
+        'name': 'brace-letter-range-elements', 'build': gen, 'harnesses': ['brace_char_sequence_values'], 'timeout': 300, 'workers': 1,
+        'label': 'complete (loop-free, full domain) for the first two elements', 'bound': 'all letters x letters x i64 increments; two elements pulled and compared with bash\'s rule (magnitude of the step, 0 counts as 1, stop before passing the end)',
+        'props': ['C05'], 'quick': True,
+    })
+    u.bounded.append({
+        'name': 'brace-number-range-second-element', 'build': gen, 'harnesses': ['brace_number_sequence_values'], 'timeout': 600, 'workers': 1,
+        'label': 'complete (loop-free, full domain) for the existence of a second element', 'bound': 'all (start, end, increment) in i64^3 except increment = i64::MIN; values of the elements are not compared (decimal formatting of a symbolic i64 does not finish)',
+        'props': ['C05'], 'quick': False,
     })
     u.assume('stub', 'generate_and_combine_brace_expansions (itertools cartesian product) is outside; only the first two elements of a range are pulled, so finiteness is concluded from strict progress of one step, not proved for the whole sequence')
     return u
